@@ -28,6 +28,9 @@ macro_rules! dispatch {
             "C04" => $f(&props::c04::C04, $($arg),*),
             "C05" => $f(&props::cli::C05, $($arg),*),
             "C13" => $f(&props::cli::C13, $($arg),*),
+            "C16" => $f(&props::cli3::C16, $($arg),*),
+            "C17" => $f(&props::cli3::C17, $($arg),*),
+            "C19" => $f(&props::cli3::C19, $($arg),*),
             "C20" => $f(&props::place::C20, $($arg),*),
             "C08" => $f(&props::cli2::C08, $($arg),*),
             "C09" => $f(&props::cli2::C09, $($arg),*),
